@@ -23,6 +23,7 @@ import (
 	"time"
 
 	"github.com/itchio/lake"
+	"github.com/itchio/lake/pools/fspool"
 	"github.com/itchio/lake/tlc"
 	"github.com/itchio/savior"
 	"github.com/itchio/savior/seeksource"
@@ -207,7 +208,18 @@ func c09Targeted(r *lib.Rng) c09Pair {
 	var rel []string
 	for i, n := range names {
 		e := old.Get(n)
-		switch r.Intn(5) {
+		switch r.Intn(7) {
+		case 5, 6: // only some whole blocks survive, under a new name: the other blocks are not reused
+			nb := len(e.Data) / bs
+			if nb == 0 {
+				nw.Put(lib.Entry{Path: n, Kind: "file", Data: e.Data})
+				rel = append(rel, "same:"+n)
+				break
+			}
+			b := r.Intn(nb)
+			d := append(append(r.Bytes(r.Range(0, 50)), e.Data[b*bs:(b+1)*bs]...), r.Bytes(r.Range(0, 50))...)
+			nw.Put(lib.Entry{Path: fmt.Sprintf("kept/%d.bin", i), Kind: "file", Data: d})
+			rel = append(rel, fmt.Sprintf("block:%s[%d]", n, b))
 		case 0: // unchanged: whole-file copy to the same path
 			nw.Put(lib.Entry{Path: n, Kind: "file", Data: e.Data})
 			rel = append(rel, "same:"+n)
@@ -305,7 +317,8 @@ func (c *Ctx) c09RunPair(r *lib.Rng, idx int, pr c09Pair, fixed []c09Damage, per
 			return err
 		}
 	}
-	comp := lib.Compressions[idx%len(lib.Compressions)]
+	// compression is not what this property is about: the three cheap settings in rotation
+	comp := []lib.Compression{lib.Compressions[0], lib.Compressions[1], lib.Compressions[4]}[idx%3]
 	dr, err := lib.Diff(oldDir, newDir, comp, nil)
 	if err != nil {
 		return fmt.Errorf("c09: diff: %v", err)
@@ -368,26 +381,42 @@ func (c *Ctx) c09RunPair(r *lib.Rng, idx int, pr c09Pair, fixed []c09Damage, per
 		}
 		if perPatch > 0 {
 			var all []c09Damage
+			want := perPatch
 			for _, f := range pr.old.Files() {
+				// the optimized patch differs from the plain one only in its bsdiff series, and every
+				// patcher of a bsdiff series allocates a 32 MiB read cache: damage only their old files
+				if v.name == "optimized" && (byPath[f.Path] == nil || !byPath[f.Path].Bsdiff) {
+					continue
+				}
 				all = append(all, c09Damages(r, f.Path, len(f.Data), byPath[f.Path])...)
 			}
-			// damages of files the patch reads first, then a sample of the rest
-			sort.SliceStable(all, func(i, j int) bool { return all[i].Hit && !all[j].Hit })
-			nHit := 0
-			for _, d := range all {
-				if d.Hit {
-					nHit++
+			if v.name == "optimized" {
+				want = (perPatch + 1) / 2
+			}
+			// one damage per class in turn (classes in random order), so that every class of the
+			// property text shows up whatever the mix of files
+			byClass := map[string][]int{}
+			var classes []string
+			for j, d := range all {
+				k := d.Class + "|" + byPath[d.Path].Kind()
+				if _, ok := byClass[k]; !ok {
+					classes = append(classes, k)
 				}
+				byClass[k] = append(byClass[k], j)
+			}
+			for i := len(classes) - 1; i > 0; i-- {
+				j := r.Intn(i + 1)
+				classes[i], classes[j] = classes[j], classes[i]
 			}
 			pick := map[int]bool{}
-			for len(pick) < perPatch && len(pick) < len(all) {
-				var j int
-				if nHit > 0 && r.Chance(4, 5) {
-					j = r.Intn(nHit)
-				} else {
-					j = r.Intn(len(all))
+			for round := 0; len(pick) < want && len(pick) < len(all) && round < 64; round++ {
+				for _, k := range classes {
+					if len(pick) >= want {
+						break
+					}
+					js := byClass[k]
+					pick[js[r.Intn(len(js))]] = true
 				}
-				pick[j] = true
 			}
 			for j := range all {
 				if pick[j] {
@@ -546,10 +575,17 @@ func (c *Ctx) c09Drive(files []c09File, steps []c09Step, tag string) (oracle str
 	if err != nil {
 		return "", err
 	}
-	ap := lib.NewMemPool(signed) // container of the signed build (sizes as signed) ...
+	// the old-build pool as the patcher sees it: an fspool over the container of the signed
+	// build (sizes as signed) serving whatever the files hold now
+	poolDir := filepath.Join(c.Tmp, "c09-skpool-"+tag)
+	defer removeAll(poolDir)
 	for i, f := range files {
-		ap.Data[int64(i)] = f.Actual // ... serving the actual bytes
+		if err := c09WriteFile(poolDir, sp.Container.Files[i].Path, f.Actual); err != nil {
+			return "", err
+		}
 	}
+	ap := fspool.New(sp.Container, poolDir)
+	defer ap.Close()
 	sk, err := c09Safekeeper(ap, sig)
 	if err != nil {
 		return "", err
@@ -563,7 +599,7 @@ func (c *Ctx) c09Drive(files []c09File, steps []c09Step, tag string) (oracle str
 			dir := filepath.Join(c.Tmp, "c09-skread-"+tag)
 			outC := &tlc.Container{Files: []*tlc.File{{Path: "out.bin", Mode: 0o644, Size: int64(len(files[s.File].Signed))}}}
 			cls, msg = lib.Guard(func() error {
-				b, err := bowl.NewFreshBowl(bowl.FreshBowlParams{TargetContainer: ap.Container, SourceContainer: outC, TargetPool: sk, OutputFolder: dir})
+				b, err := bowl.NewFreshBowl(bowl.FreshBowlParams{TargetContainer: sp.Container, SourceContainer: outC, TargetPool: sk, OutputFolder: dir})
 				if err != nil {
 					return err
 				}
@@ -640,9 +676,18 @@ func c09GenFile(r *lib.Rng) (c09File, string) {
 		}
 	}
 	d := cand[r.Intn(len(cand))]
-	actual, _ := d.apply(r, signed)
-	if d.Kind == "extend" && r.Bool() { // structured extension keeps the run-length encoding short
-		actual = append(append([]byte(nil), signed...), bytes.Repeat([]byte{byte(r.Intn(256))}, d.Arg)...)
+	var actual []byte
+	if d.Kind == "extend" { // a structured extension keeps the run-length encoding short
+		fill := byte(r.Intn(256))
+		if r.Chance(1, 3) && size > 0 {
+			fill = signed[size-1] // more of the same
+		}
+		actual = append(append([]byte(nil), signed...), bytes.Repeat([]byte{fill}, d.Arg)...)
+		if d.Arg > 2 && r.Bool() {
+			actual[len(actual)-1] ^= 0x55
+		}
+	} else {
+		actual, _ = d.apply(r, signed)
 	}
 	return c09File{signed, actual}, d.Class
 }
@@ -744,7 +789,7 @@ func runC09(c *Ctx) error {
 		}
 	}
 	// ---- generated: reader level
-	n := c.N(260, 2500)
+	n := c.N(200, 2500)
 	for i := 0; i < n; i++ {
 		cr := r.Fork()
 		nf := cr.Range(1, 3)
